@@ -1,4 +1,6 @@
 pub mod opcmp;
+pub mod c03;
+pub mod c04;
 pub mod c05;
 pub mod c06;
 pub mod c07;
@@ -31,6 +33,8 @@ macro_rules! mon {
 pub fn registry() -> Vec<Monitor> {
   let _ = crash_is_harness_failure;
   let mut v = vec![
+    mon!("c03", c03),
+    mon!("c04", c04),
     mon!("c05", c05),
     mon!("c06", c06),
     mon!("c07", c07),
